@@ -36,6 +36,9 @@ Definition hfun (kind : Z) (kw : kwargs) : rv :=
   | 23 => RT [RT [RZ (10 * c); RZ (10 * c + 100); RZ (10 * c + 200)];
               RT [RZ (10 * c + 1); RZ (10 * c + 101); RZ (10 * c + 201)];
               RT [RZ (10 * c + 2); RZ (10 * c + 102); RZ (10 * c + 202)]]
+  (* ONE labelled output that can be iterated over: a string, a pair *)
+  | 31 => RS (10 * c)
+  | 32 => RT [RZ (10 * c); RZ (10 * c + 1)]
   | _ => RD c
   end.
 
